@@ -3,46 +3,10 @@ import json
 import os
 
 import jsonschema
+import sys
+sys.path.insert(0, os.path.dirname(os.path.abspath(__file__)))
 
-CLAIMED = {
-    # pid: (category, text, design_ref, level_note, technique)
-    "C07": ("proof",
-            "Coq theorems (props/C07.v, axiom-free) about the chunk plan of Jac for ALL m>=1 and all valid "
-            "chunk sizes: exactly ceil(m/k) sweeps, contiguous/in order/covering rows 0..m-1, 1..k rows each, "
-            "batched iff more than one row, k=1 or m=1 never batched, all sweeps but the last retain the graph, "
-            "row-wise result independent of k. Tied to /repo by an exhaustive (m<=12, all k, both flags, both "
-            "entry points) comparison of the model's plan with the sweeps observed through a tensor hook, plus a "
-            "direct oracle (sweep count, sizes, update values, vmap-incompatible graphs).",
-            "DESIGN.md §8 C07",
-            "Trusted: Coq kernel, the hand-written Chunk.v model (tied by correspondence), torch.vmap computing "
-            "row-wise vjps, the hook firing once per sweep. No axioms.",
-            "Coq proof + exhaustive small-scope correspondence"),
-    "C03": ("proof",
-            "Coq theorems over the reals (props/C03.v) for ALL matrices of all sizes: an exact KKT certificate "
-            "implies minimality; G/s^2+reg_eps I is symmetric PSD; the minimiser is unique (reg_eps>0); the "
-            "DualProj/UPGrad models return J^T w for THE minimiser(s) named in the property; with no conflicting "
-            "pair (or s<norm_eps) and u>=0 they return exactly J^T u; wrong-length pref vectors are rejected. "
-            "The QP kernel is an oracle whose answers the harness computes exactly (active sets over Fractions) "
-            "and whose KKT certificates Coq re-checks exactly. Correspondence + direct oracle on random "
-            "matrices of all categories, f32/f64.",
-            "DESIGN.md §8 C03",
-            "Trusted: Coq kernel + classical-reals axioms of the stdlib (listed in evidence), the Agg.v model "
-            "(tied by correspondence), quadprog and LAPACK svd (checked per case against exact answers), float "
-            "rounding (tolerances). The explanatory 'projection onto the dual cone' clause (Prop. 1 of the paper) "
-            "is not proved.",
-            "Coq proof (R) + differential correspondence with exact rational QP oracle"),
-    "C04": ("proof",
-            "PARTIAL. Proved in Coq for all matrices: at a minimiser (M w)_i >= 0, hence for DualProj and UPGrad "
-            "(J.A(J))_i >= -reg_eps s^2 w_i for every row (props/C04.v). NOT yet proved (checked by the direct "
-            "oracle only, and said so in the evidence): MGDA's allowance s*sqrt(|A|^2-minnorm^2), the Frank-Wolfe "
-            "rate 8 s^2/(K+2), CAGrad's c>=1 clause. Direct oracle: the stated allowance on random matrices of "
-            "all categories and exhaustively on all {-1,0,1} matrices (2x2,2x3,3x2 quick; up to 3x3 thorough), "
-            "at scale 1 and at sigma_max just above norm_eps, all MGDA budgets 0..1000.",
-            "DESIGN.md §8 C04, §13",
-            "Trusted: as C03; exact rational min-norm point (harness) for MGDA's allowance; rounding slack "
-            "1e-9 s^2 (f64) / 1e-3 s^2 (f32).",
-            "Coq proof (QP part) + exhaustive small-scope oracle"),
-}
+from manifest_entries import CLAIMED
 
 ALL = [f"C{i:02d}" for i in range(1, 21)]
 
